@@ -348,7 +348,7 @@ def expand_with_scope(text, macro_def_text):
 # String-literal patterns compare by value (str: PartialEq), arms are tried in order: this is the
 # definition of the match.  (Verus accepts the match form but gives the later arms no negative
 # information, so completeness of a keyword table cannot be proved on it.)
-_STR_MATCH = re.compile(r'\bmatch\s+([A-Za-z_][A-Za-z0-9_]*)\s*\{\s*"')
+_STR_MATCH = re.compile(r'\bmatch\s+([^{};]+?)\s*\{\s*"')
 
 
 def desugar_str_match(text):
@@ -389,6 +389,10 @@ def desugar_str_match(text):
         for lits, rhs in conds:
             parts.append('if %s { %s }' % (' || '.join('%s == %s' % (scrut, l) for l in lits), rhs))
         new = ' else '.join(parts) + ' else { %s }' % default
+        if not re.fullmatch(r'[A-Za-z_][A-Za-z0-9_]*', scrut):
+            # a scrutinee that is not a plain local is evaluated once, by a `match` with a single binding arm
+            # (temporaries of the scrutinee live as long as they do in the original `match`)
+            new = 'match %s { oq3_s => { %s } }' % (scrut, new.replace(scrut + ' == ', 'oq3_s == '))
         log.append('D20 match on &str `%s`: %d literal arm(s) -> if / else-if chain' % (scrut, len(conds)))
         text = text[:m.start()] + new + text[bc + 1:]
 
